@@ -2,7 +2,7 @@
 import tables as T
 from cfg import cfg_of
 from flow import Taint, callee_matches, op_local, prep
-from rules import CallGuard, CallSink, CmpGuard, RetSink, AggSink, BlockSink, P
+from rules import ForallGuard, CallGuard, CallSink, CmpGuard, RetSink, AggSink, BlockSink, P
 
 META = {
     "explanation": "Decides: (1) Network::put_local_record is called only from the four typed store functions, which are called only from "
@@ -125,7 +125,8 @@ def run(R):
 
         guards = [
             [CallGuard(["ant_evm::data_payments::ProofOfPayment::verify_for"], ("true",), "payment.verify_for(self) is true")],
-            [CallGuard(["ant_evm::data_payments::ProofOfPayment::has_expired"], ("false",), "payment.has_expired() is false")],
+            [CallGuard(["ant_evm::data_payments::ProofOfPayment::has_expired"], ("false",), "payment.has_expired() is false"),
+             ForallGuard("peer_quotes", ["ant_evm::data_payments::PaymentQuote::has_expired"], ("false",), "every quote of the proof has has_expired() false")],
             [CallGuard(["alloc::vec::Vec::is_empty"], ("true",), "payees outside closest_k_peers is empty", arg_pred=payees_empty_pred)],
             [CallGuard(["evmlib::utils::verify_data_payment", "*::verify_data_payment"], ("Ok",), "verify_data_payment is Ok")],
         ]
